@@ -3,6 +3,7 @@ package main
 // C05 — rendering a parsed dependency and re-parsing it loses nothing.
 
 import (
+	"regexp"
 	"fmt"
 	"go/types"
 	"sort"
@@ -498,7 +499,83 @@ func c05Fixpoint(p *Prog, rp *Report) {
 			problems = append(problems, fmt.Sprintf("the value parsed from %q changes when the next field is parsed: %s became %s", f, a, again))
 		}
 	}
+	for _, pr := range longNameRows(p) {
+		n++
+		problems = append(problems, pr)
+	}
+	// a long field written compactly (no blanks after the commas): its rendering, which has them, is longer, and is
+	// accepted all the same (Policy sets no maximum length; real Depends lines of metapackages run to tens of
+	// kilobytes)
+	if rp.Tier == "thorough" { // a minute and a half of interpretation: not on every change
+		var names []string
+		for i := 0; i < 9200; i++ {
+			names = append(names, fmt.Sprintf("p%05d", i))
+		}
+		fields = nil
+		compact := strings.Join(names, ",")
+		m.StepLimit = 50000000
+		st1, d1, err := parseStr(compact)
+		n++
+		switch {
+		case strings.HasPrefix(err, "undecided"):
+			problems = append(problems, err)
+		case err != "":
+			problems = append(problems, fmt.Sprintf("a field of %d bytes (9200 names separated by commas) is rejected", len(compact)))
+		default:
+			dv, _ := st1.load(d1.(Ptr))
+			st1.Status = stRun
+			st1.Frames = nil
+			st1.push(strFn, []Val{cloneVal(dv)}, nil)
+			out := m.Run(st1)
+			if len(out) != 1 || out[0].Status != stRet {
+				problems = append(problems, "undecided: rendering the long field "+retDesc(out))
+			} else if rendered, ok := st1.Ret.(string); ok {
+				if _, _, err := parseStr(rendered); err != "" {
+					problems = append(problems, fmt.Sprintf("a field of %d bytes is accepted and renders as %d bytes, which is %s", len(compact), len(rendered), err))
+				}
+			}
+		}
+	}
 	rp.Extra["fixpoint_fields"] = n
 	rp.Extra["fixpoint_accepted"] = accepted
 	fillProblems(r, "dependency.Dependency.String", p.Pos(strFn.Pos()), problems, fmt.Sprintf("%d generated fields, %d accepted: each rendering is accepted and parses to a structurally identical value", n, accepted))
+}
+
+// longNameRows: names of every length are names. Lengths that are multiples of a likely chunk or buffer size (16, 32,
+// 64, 128, 256 bytes) and one byte to either side, as package, architecture and profile names: the field is
+// accepted and the names come back whole.
+func longNameRows(p *Prog) []string {
+	parse := p.Func("dependency", "Parse")
+	if parse == nil {
+		return []string{"undecided: dependency.Parse not found"}
+	}
+	m := depMachine(p)
+	var problems []string
+	for _, k := range []int{15, 16, 17, 31, 32, 33, 63, 64, 65, 127, 128, 129, 255, 256, 257} {
+		long := strings.Repeat("libboost-program-options1.74-dev", 9)[:k]
+		plain := strings.Repeat("amd64x", 50)[:k] // no hyphen: one component of an architecture name
+		f := "first, " + long + " (>= 1.74.0) [" + plain + "] <" + plain + "> | alt, last"
+		st := initState(m, "dependency")
+		st.push(parse, []Val{f}, nil)
+		out := m.Run(st)
+		if len(out) != 1 || out[0].Status != stRet {
+			return append(problems, "undecided: "+retDesc(out))
+		}
+		tv := st.Ret.(*TupleV)
+		if _, ok := tv.E[1].(nilV); !ok {
+			problems = append(problems, fmt.Sprintf("a field with a %d byte package, architecture and profile name is rejected", k))
+			continue
+		}
+		d := dumpDep(p, st, tv.E[0])
+		var names []string
+		for _, g := range regexp.MustCompile(`name=([^ }]+)`).FindAllStringSubmatch(d, -1) {
+			names = append(names, g[1])
+		}
+		if want := "first," + long + ",alt,last"; strings.Join(names, ",") != want {
+			problems = append(problems, fmt.Sprintf("a field whose second package name is %d bytes long parses to the names %v, want first, that name, alt, last", k, names))
+		} else if strings.Count(d, plain) < 2 {
+			problems = append(problems, fmt.Sprintf("a %d byte name used as architecture and as profile name does not come back twice: %s", k, clip(d, 300)))
+		}
+	}
+	return problems
 }
